@@ -43,3 +43,14 @@ Print Assumptions C06_ledger.
 Theorem C06_constants : chunk_max = 16384 /\ init_window = 65536.
 Proof. exact (conj chunk_max_is_16KiB init_window_is_64KiB). Qed.
 Print Assumptions C06_constants.
+
+(* system level, all interleavings: the receiver is never overrun by a conforming sender, never
+   buffers more than its window, credit is conserved, every frame is at most cmax bytes *)
+From GT Require Import Pipe PipeProofs.
+Theorem C06_system_window_discipline : forall (A : Type) cmax W ls (s : pst A),
+  prun cmax (p_init A W) ls = Some s ->
+  p_overrun s = false /\ (bytes (p_rq s) <= W)%nat /\ (p_swin s <= W)%nat /\
+  (p_swin s + bytes (p_wire s) + bytes (p_rq s) + PipeProofs.sum (p_credits s) = W)%nat /\
+  Forall (fun f => (flen f <= cmax)%nat) (p_sent s).
+Proof. exact system_window_discipline. Qed.
+Print Assumptions C06_system_window_discipline.
